@@ -55,7 +55,16 @@ def dataOfJson (j : Lean.Json) : Option DataIn :=
     let tets := (objPairs ((field ci "tetraplet_store").getD Lean.Json.null)).map fun (k, v) => (k, tetrapletOfJson v)
     let srs := (objPairs ((field ci "service_result_store").getD Lean.Json.null)).map fun (k, v) =>
       (k, ({ valueCid := getStr v "value_cid", argumentHash := getStr v "argument_hash", tetrapletCid := getStr v "tetraplet_cid" } : ServiceResultAgg))
-    pure { trace := trace, lcid := getNat j "lcid", cid := { values := values, tetraplets := tets, serviceResults := srs } }
+    let provOf (p : Lean.Json) : Provenance := match getStr p "type" with
+      | "service_result" => .serviceResult (getStr p "cid")
+      | "canon" => .canon (getStr p "cid")
+      | _ => .literal
+    let elems := (objPairs ((field ci "canon_element_store").getD Lean.Json.null)).map fun (k, v) =>
+      (k, ({ value := getStr v "value", tetraplet := getStr v "tetraplet", provenance := provOf ((field v "provenance").getD Lean.Json.null) } : CanonElemAgg))
+    let cres := (objPairs ((field ci "canon_result_store").getD Lean.Json.null)).map fun (k, v) =>
+      (k, ({ tetraplet := getStr v "tetraplet", values := getStrList v "values" } : CanonResultAgg))
+    pure { trace := trace, lcid := getNat j "lcid",
+           cid := { values := values, tetraplets := tets, serviceResults := srs, canonElements := elems, canonResults := cres } }
 
 /-- canon stores are not modelled yet: data holding canon results is outside the fragment -/
 def hasCanonStores (j : Lean.Json) : Bool :=
@@ -67,7 +76,6 @@ def opExec (j : Lean.Json) : Lean.Json :=
   let curJ := (field j "cur").getD Lean.Json.null
   match instrOfJson ((field j "ast").getD Lean.Json.null), dataOfJson prevJ, dataOfJson curJ with
   | some script, some prev, some cur =>
-    if hasCanonStores prevJ || hasCanonStores curJ then Lean.Json.mkObj [("unmodelled", "canon stores in data")] else
     let pj := (field j "params").getD Lean.Json.null
     let params : RunParams := { initPeerId := getStr pj "init", currentPeerId := getStr pj "me", timestamp := getNat pj "ts", ttl := getNat pj "ttl" }
     let results := (objPairs ((field j "results").getD Lean.Json.null)).map fun (k, v) =>
@@ -76,7 +84,7 @@ def opExec (j : Lean.Json) : Lean.Json :=
     -- serde's error text for results that are not JSON is supplied by the harness (`parse_errs`: text ↦ message)
     let errs : List (String × String) := (objPairs ((field j "parse_errs").getD Lean.Json.null)).map fun (k, v) => (k, jStr v)
     let env : Env := { driverEnv with parseErr := fun s => (lookup errs s).getD "" }
-    let (res, c) := runExec env fuel script prev cur params results
+    let (res, c) := runExecFarewell env fuel script prev cur params results
     let common : List (String × Lean.Json) :=
       [("trace", traceToJson c.th.keeper.resultTrace),
        ("next", toJson c.nextPeerPks),
@@ -88,6 +96,8 @@ def opExec (j : Lean.Json) : Lean.Json :=
        ("values", toJson (c.cid.values.map (·.1))),
        ("tetraplets", toJson (c.cid.tetraplets.map (·.1))),
        ("service_results", toJson (c.cid.serviceResults.map (·.1))),
+       ("canon_elements", toJson (c.cid.canonElements.map (·.1))),
+       ("canon_results", toJson (c.cid.canonResults.map (·.1))),
        ("peer_cids", toJson c.peerCids),
        ("leftover", toJson (c.callResults.map (·.1)))]
     match res with
@@ -95,7 +105,7 @@ def opExec (j : Lean.Json) : Lean.Json :=
       let code : Int := if c.callResults.isEmpty then 0 else 30000
       Lean.Json.mkObj ([("code", toJson code), ("msg", "")] ++ common)
     | .error (.catchable e) => Lean.Json.mkObj ([("code", toJson e.code), ("msg", e.render)] ++ common)
-    | .error (.uncatchable e) => Lean.Json.mkObj [("code", toJson e.code), ("uncatchable", e.variant)]
+    | .error (.uncatchable e) => Lean.Json.mkObj [("code", toJson e.code), ("uncatchable", e.variant), ("detail", toString (repr e))]
     | .error (.unmodelled w) => Lean.Json.mkObj [("unmodelled", w)]
     | .panic s => Lean.Json.mkObj [("panic", s)]
   | none, _, _ => Lean.Json.mkObj [("unmodelled", "ast does not decode")]
